@@ -259,22 +259,48 @@ func encS(v vals) ([]byte, error) {
 	panic("kind")
 }
 
-func encB(v vals) ([]byte, error) {
+// dirty returns a caller-supplied buffer with stale content, longer than any encoding of v
+// (the batch encoders take a buffer to reuse; their result must not depend on it)
+func dirty(v vals) []byte {
+	n := 64 + 12*v.Len()
+	for _, s := range v.s {
+		n += len(s)
+	}
+	b := make([]byte, n)
+	for i := range b {
+		b[i] = 0xA5
+	}
+	return b
+}
+
+func encBWith(v vals, buf []byte) ([]byte, error) {
 	switch v.kind {
 	case 'i':
-		return tsm1.IntegerArrayEncodeAll(i64s(v.u), nil)
+		return tsm1.IntegerArrayEncodeAll(i64s(v.u), buf)
 	case 'u':
-		return tsm1.UnsignedArrayEncodeAll(append([]uint64(nil), v.u...), nil)
+		return tsm1.UnsignedArrayEncodeAll(append([]uint64(nil), v.u...), buf)
 	case 't':
-		return tsm1.TimeArrayEncodeAll(i64s(v.u), nil)
+		return tsm1.TimeArrayEncodeAll(i64s(v.u), buf)
 	case 'f':
-		return tsm1.FloatArrayEncodeAll(f64s(v.u), nil)
+		return tsm1.FloatArrayEncodeAll(f64s(v.u), buf)
 	case 'b':
-		return tsm1.BooleanArrayEncodeAll(append([]bool(nil), v.b...), nil)
+		return tsm1.BooleanArrayEncodeAll(append([]bool(nil), v.b...), buf)
 	case 's':
-		return tsm1.StringArrayEncodeAll(append([]string(nil), v.s...), nil)
+		return tsm1.StringArrayEncodeAll(append([]string(nil), v.s...), buf)
 	}
 	panic("kind")
+}
+
+// encB: the batch encoder with a nil buffer (what every caller in the tree passes)
+func encB(v vals) ([]byte, error) {
+	b, err := encBWith(v, nil)
+	return append([]byte(nil), b...), err
+}
+
+// encD: the batch encoder with a dirty, oversized caller-supplied buffer
+func encD(v vals) ([]byte, error) {
+	b, err := encBWith(v, dirty(v))
+	return append([]byte(nil), b...), err
 }
 
 func decS(kind byte, b []byte) (vals, error) {
@@ -385,6 +411,7 @@ func opCodec(t []string) string {
 	in := parseVals(t[1][0], t[2])
 	sb, serr := encS(in)
 	bb, berr := encB(in)
+	db, derr := encD(in)
 	hs, hb := "err", "err"
 	if serr == nil {
 		hs = canonVal(in.kind, sb)
@@ -394,7 +421,8 @@ func opCodec(t []string) string {
 	}
 	return "S:" + hs + " B:" + hb +
 		" SS:" + rt(in, sb, serr, decS) + " SB:" + rt(in, sb, serr, decB) +
-		" BS:" + rt(in, bb, berr, decS) + " BB:" + rt(in, bb, berr, decB)
+		" BS:" + rt(in, bb, berr, decS) + " BB:" + rt(in, bb, berr, decB) +
+		" DS:" + rt(in, db, derr, decS) + " DB:" + rt(in, db, derr, decB)
 }
 
 // ---------------------------------------------------------------- blocks
